@@ -23,6 +23,8 @@ fn pool() -> Vec<RMap> {
         RMap { root: Some("r/".into()), ..m(&["x"], vec![RTok::new(0, 2, None), RTok::new(0, 3, Some((0, 9, 9, None)))]) },
         // the same source names as other pool maps, with different contents
         RMap { contents: vec![Some("OTHER-A".into()), Some("OTHER-B".into())], ..m(&["a", "b"], vec![RTok::new(0, 1, Some((1, 3, 3, None))), RTok::new(0, 2, Some((0, 4, 4, Some(1))))]) },
+        // a source that other pool maps carry with contents, here only ignore-listed
+        RMap { ignore: vec![0], ..m(&["a"], vec![RTok::new(0, 0, Some((0, 8, 8, None))), RTok::new(1, 1, Some((0, 9, 0, None)))]) },
     ]
 }
 
@@ -278,6 +280,8 @@ fn make_doc(offs: &[usize], picks: &[usize], special: Option<(usize, usize)>) ->
         sections: vec![
             RSection { off: (0, 0), url: None, map: Some(Box::new(RDoc::Regular(p[1].clone()))) },
             RSection { off: (0, 9), url: None, map: Some(Box::new(RDoc::Regular(p[4].clone()))) },
+            // an inner section that starts on a later line of the nested index, mid-line
+            RSection { off: (1, 2), url: None, map: Some(Box::new(RDoc::Regular(p[1].clone()))) },
         ],
     });
     let herm = hermes_pool()[0].clone();
@@ -309,7 +313,7 @@ pub fn run(run: &mut Run) -> Finish {
         let combos = np.pow(n as u32);
         // special variants: none, or one slot replaced by {nested index, Hermes, url-only}
         let specials = 1 + 3 * n as u64;
-        run.par_slice(&format!("{n} section(s): every strictly increasing offset choice over 6 offsets x every assignment of the 9-map pool x {{plain, one slot nested index / Hermes / url-only}}, constructed and decoded, query grid around every offset"), slice_no, no * combos * specials, |idx, l| {
+        run.par_slice(&format!("{n} section(s): every strictly increasing offset choice over 6 offsets x every assignment of the 10-map pool x {{plain, one slot nested index / Hermes / url-only}}, constructed and decoded, query grid around every offset"), slice_no, no * combos * specials, |idx, l| {
             let k = idx & ((1 << 40) - 1);
             let d = mixed_radix(k, &[specials, combos, no]);
             let picks = seq_of(d[1], np, n);
